@@ -13,6 +13,7 @@ func runC15(c *Ctx) {
 	c15FileReplica(c)
 	c15TargetBounds(c)
 	c15Siblings(c)
+	c15HeaderTimestamp(c)
 	// R4: T before the first backup fails: the plan must be non-empty (C08-R4 success condition)
 	plan := c.fnOpt("ls.CalcRestorePlan")
 	if plan != nil {
@@ -178,4 +179,38 @@ func c15Siblings(c *Ctx) {
 		c.check(found, rule, fnName(fn)+" reads the LTX header (timestamp source)", c.P.Pos(fn.Pos()), "reaches ltx.PeekHeader/DecodeHeader", "this backend does not read the LTX header, so it cannot preserve the replication timestamp")
 	}
 	c.floor(rule, n, 6, "WriteLTXFile implementations in production packages")
+}
+
+// c15HeaderTimestamp: the replication time recorded in an LTX header is taken
+// when the file is produced (after its position is fixed), never earlier.
+func c15HeaderTimestamp(c *Ctx) {
+	const rule = "R7-header-timestamp-fresh"
+	n := 0
+	for _, name := range []string{"(*ls.DB).sync", "(*ls.DB).snapshotReader"} {
+		fn := c.fn(rule, name)
+		if fn == nil {
+			continue
+		}
+		for _, f := range withClosures(fn) {
+			for _, call := range callsTo(f, nameIs("(*ltx.Encoder).EncodeHeader")) {
+				n++
+				flds := compositeFields(call.Common().Args[1])
+				ts := flds["Timestamp"]
+				ok := false
+				for _, o := range origins(ts) {
+					um, isC := o.(*ssa.Call)
+					if !isC || calleeName(um) != "(time.Time).UnixMilli" {
+						continue
+					}
+					for _, oo := range origins(um.Call.Args[0]) {
+						if now, isN := oo.(*ssa.Call); isN && calleeName(now) == "time.Now" && now.Parent() == f {
+							ok = true
+						}
+					}
+				}
+				c.check(ok, rule, fnName(f)+": header Timestamp = time.Now() taken while the file is produced", c.pos(call), "time.Now().UnixMilli() in the producing function", "the recorded replication time is captured elsewhere (possibly before the position was fixed): a timestamp restore could return a transaction replicated after T")
+			}
+		}
+	}
+	c.floor(rule, n, 2, "LTX headers written by litestream")
 }
